@@ -76,11 +76,11 @@ def gen_case(rng, n_ops, faults=False, crashes=False):
             if rng.chance(1, 5):
                 o += " noecho=1"
             if rng.chance(1, 6):
-                o += f" head=" + rng.choice(["mime:text", "sender:U3", "x:y;sender:U1", "replace::1"])
+                o += f" head=" + rng.choice(["mime:text", "sender:U3", "x:y;sender:U1", "replace:m1"])
         elif k < 62:
             o = f"note {s} {t} {rng.choice(['read', 'read', 'recv', 'recv', 'kp', 'bogus'])} {rng.choice([0, 1, 2, 3, 5, 8, -1, contents, contents + 1])}"
         elif k < 72:
-            what = rng.choice(["desc", "sub", "data", "data", "del"])
+            what = rng.choice(["desc", "sub", "data", "data", "del", "desc", "sub", "data", "data", "del", "bogus"])
             o = f"get {s} {t} {what}"
             if what in ("data", "del") and rng.chance(1, 2):
                 o += f" since={rng.below(6)} before={rng.below(8)} limit={rng.choice([0, 1, 2, 100])}"
